@@ -11,7 +11,7 @@ for pid in all_ids:
     if pid not in props.PROPS:
         continue
     c = props.PROPS[pid]
-    m = ms.CHECKS[pid]
+    m = props.MANIFESTS[pid]
     checks.append(dict(
         property_id=pid,
         quick_cmd="./check %s --tier quick" % pid,
